@@ -12,6 +12,8 @@
     performed by the raw puppet client of lib/c10_att.py.  disclosure = canary bytes in any server PDU
     (Find By Type Value: the target's handle in the response); modification = server-side value differs
     afterwards (or the write callback ran).  Each [row, outcome] trace is judged by PermTrace.tla.
+    Link jobs (link:<transport>:<events>): LE or BR/EDR connection whose security is produced by real HCI Authentication
+    Complete / Encryption Change events; the trace starts with link(tr, evs) and the row's level is SecAfter(tr, evs) of Perm.tla.
 """
 from __future__ import annotations
 
@@ -259,6 +261,49 @@ def prime_for(rig, db, op, p, nb):
     rig.prime(b"\x10" + H(t.handle) + H(t.handle) + H(0x2800))
 
 
+# ----------------------------------------------------------------------------- link security produced by HCI events
+class LinkRig(A.AttRig):
+    """Server + raw puppet on a connection of the given transport ("le" / "bredr"); on BR/EDR the ATT bearer is the
+    fixed channel of the ACL link.  The link's security state is then produced by HCI events only (link_events)."""
+
+    def __init__(self, transport, **kw):
+        self.transport = transport
+        super().__init__(**kw)
+
+    async def _setup(self, seed, max_delay, build_db, eatt, server_patch):
+        from lib import rig as _rig
+
+        self.net = _rig.Net(2, seed=seed, max_delay=max_delay)
+        if self.transport == "bredr":
+            _rig.enable_classic(self.net)
+        await self.net.power_on()
+        self.server_device = self.net[1]
+        self.server = self.server_device.gatt_server
+        self.db = build_db(self.server_device) if build_db else None
+        if server_patch:
+            server_patch(self.server)
+        if self.transport == "bredr":
+            self.cc, self.pc = await self.net.connect_classic(0, 1)
+        else:
+            self.cc, self.pc = await self.net.connect_le(0, 1)
+        self.net[0].l2cap_channel_manager.register_fixed_channel(A.ATT_CID, self._on_fixed)
+
+
+def link_events(rig, evs):
+    """deliver the HCI security events (LinkEvents of Perm.tla) for the server-side connection to the server's host"""
+    from bumble import hci
+
+    tap = rig.net.stacks[1].tap
+    hdl = rig.pc.handle
+    for e in evs:
+        if e == "auth":
+            pk = hci.HCI_Authentication_Complete_Event(status=0, connection_handle=hdl)
+        else:
+            pk = hci.HCI_Encryption_Change_Event(status=0, connection_handle=hdl, encryption_enabled={"enc0": 0, "enc1": 1, "enc2": 2}[e])
+        rig.call(lambda pk=pk: tap.inject_to_host(bytes(pk)))
+        rig.run(1.0)
+
+
 # ----------------------------------------------------------------------------- jobs
 def rows_job(job):
     """All (op, p, nb) rows of the given ops at one security level on one rig.  Returns [(trace, meta)]."""
@@ -274,7 +319,12 @@ def rows_job(job):
         return holder["db"]
 
     history = real == "history"
-    if history:
+    link = None
+    if real and real.startswith("link:"):
+        _l, tr_, evs_ = real.split(":")
+        link = {"e": "link", "tr": tr_, "evs": evs_.split(",")}
+        rig = LinkRig(tr_, seed=seed, build_db=builder, server_patch=patch)
+    elif history:
         real = None
         rig = HistRig(seed=seed, build_db=builder, server_patch=patch)
     else:
@@ -291,7 +341,12 @@ def rows_job(job):
             pup.set_mtu(mtu)
         if real == "paired":
             rig.await_(rig.cc.pair, limit=120)
-        if real in ("enc-on-off", "enc-on-off-v2"):
+        if link:
+            # the link's security is whatever these HCI events make it; which level that is, is SecAfter of Perm.tla
+            # (the row's `sec` is not read by the trace spec after a link event)
+            link_events(rig, link["evs"])
+            sec = "by-events"
+        elif real in ("enc-on-off", "enc-on-off-v2"):
             # the controller reports encryption switched on, later switched off again (real HCI events delivered to the
             # server's host): from then on the link is plain, whatever the stack remembers
             from bumble import hci
@@ -322,6 +377,8 @@ def rows_job(job):
                     if history:
                         prime_for(rig, db, op, p, nb)
                     tr, pdu, rx = run_row(rig, pup, db, b, op, p, sec, nb)
+                    if link:
+                        tr = [link] + tr
                     out.append((tr, {"flavour": flavour, "bearer": bearer, "mtu": mtu, "sec": sec, "op": op, "p": p, "nb": nb, "seed": seed,
                                      "real": "history" if history else real, "pdu": pdu.hex(), "rx": rx}))
     finally:
@@ -361,7 +418,7 @@ def validate(ctx, rep, pairs, report=True, chunk=6000):
 def judge(rep, tr, meta, v):
     rep.traces += 1
     rep.case((meta["flavour"], meta["bearer"], meta["mtu"], meta["real"], meta["op"], meta["p"], meta["sec"], meta["nb"]), nontrivial=True,
-             sample={"row": tr[0], "outcome": tr[1]} if rep.evaluations % 4999 == 0 else None)
+             sample={"row": tr[-2], "outcome": tr[-1]} if rep.evaluations % 4999 == 0 else None)
     if v[0] == "ACCEPT":
         return
     info = v[3] if len(v) > 3 and isinstance(v[3], dict) else {}
@@ -370,7 +427,7 @@ def judge(rep, tr, meta, v):
         raise tlc.TlcError(f"harness produced a row/outcome the spec cannot even read (not a verdict): {v} {tr}")
     why = info.get("why", "?")
     sig = f"perm:{meta['op']}:{why}:{'+'.join(clauses)}" + (":after-authorised-peer" if meta.get("real") == "history" else "")
-    o = tr[1]
+    o = tr[-1]
     rep.violation(
         sig,
         f"{sig}: attribute with permissions 0x{meta['p']:02X} ({meta['flavour']}), link {meta['sec']}{' (reached by ' + meta['real'] + ')' if meta['real'] else ''}, "
@@ -403,6 +460,17 @@ def plan(ctx, patch=None, small=False):
     encp = [p for p in sorted(set(sample) | {0x04, 0x05, 0x08, 0x0A, 0x0F, 0x14, 0x15, 0x28, 0x2A, 0x3F}) if (not p & 0x10 or p & 0x04) and (not p & 0x20 or p & 0x08)]
     jobs.append(("raw", "fixed", 23, None, OPS, encp, seed, patch, "enc-on-off"))
     jobs.append(("raw", "fixed", 23, None, READ_OPS[:2] + WRITE_OPS, encp, seed, patch, "enc-on-off-v2"))
+    # the link's security produced by HCI events on BOTH transports, judged at SecAfter(transport, events) of Perm.tla: a
+    # BR/EDR link on which only E0 encryption came on (Encryption Change 1, no Authentication Complete) is encrypted and
+    # not authenticated, so every authentication requirement must refuse; where the events leave authentication open
+    # the spec judges at the strongest level.  Sequences that end unencrypted use encp (see above)
+    authp = sorted(set(sample) | {0x04, 0x08, 0x0C, 0x11, 0x14, 0x15, 0x1F, 0x22, 0x28, 0x2A, 0x30, 0x33, 0x3F})
+    jobs.append(("raw", "fixed", 23, None, OPS, authp, seed, patch, "link:bredr:enc1"))
+    jobs.append(("raw", "fixed", 23, None, READ_OPS[:3] + WRITE_OPS, sample, seed, patch, "link:bredr:auth,enc1"))
+    jobs.append(("raw", "fixed", 23, None, READ_OPS[:3] + WRITE_OPS, sample, seed, patch, "link:bredr:enc2"))
+    jobs.append(("raw", "fixed", 23, None, READ_OPS[:3] + WRITE_OPS, sample, seed, patch, "link:le:enc1"))
+    jobs.append(("raw", "fixed", 23, None, READ_OPS[:3] + WRITE_OPS, encp, seed, patch, "link:bredr:enc1,enc0"))
+    jobs.append(("char", "fixed", 23, None, READ_OPS[:3] + WRITE_OPS, authp, seed, patch, "link:bredr:enc1"))
     # characteristic values (properties say READ | WRITE whatever the permission byte): the permission byte decides
     jobs.append(("char", "fixed", 23, "plain", OPS, sample, seed, patch, None))
     jobs.append(("char", "fixed", 23, "enc", WRITE_OPS + READ_OPS[:2], sample, seed, patch, None))
@@ -441,7 +509,7 @@ def execute(ctx, rep, jobs, report=True):
     # positive controls: the canary / modification detectors must fire on accesses that are served
     served = {}
     for tr, meta in pairs:
-        o = tr[1]
+        o = tr[-1]
         if o["disclosed"] or o["modified"]:
             served[meta["op"]] = served.get(meta["op"], 0) + 1
     rep.extra["rows_where_access_was_observed_per_path"] = served
@@ -473,7 +541,7 @@ def replay(ctx, rep):
     job = (m["flavour"], m["bearer"], m["mtu"], m["sec"], [m["op"]], [m["p"]], m["seed"], None, m["real"])
     pairs = [(t, mm) for t, mm in rows_job(job) if mm["nb"] == m["nb"]]
     for t, mm in pairs:
-        print(f"permissions 0x{mm['p']:02X}, link {mm['sec']}, {mm['op']} ({mm['nb']}): request {mm['pdu']} -> {mm['rx']}; outcome {t[1]}")
+        print(f"permissions 0x{mm['p']:02X}, link {mm['sec']}, {mm['op']} ({mm['nb']}): request {mm['pdu']} -> {mm['rx']}; outcome {t[-1]}")
     validate(ctx, rep, pairs)
     if not rep.violations:
         print("replay: the outcome is accepted now (no violation reproduced)")
